@@ -21,7 +21,7 @@ ByteStrs == UpTo(<<97, 233, 128512, 43, 32, 37>>, 2) \o [i \in DOMAIN ByteAlpha 
             \o << <<97, 98, 99>>, <<97, 98, 99, 100>>, <<97, 98, 99, 100, 101>>, <<8364, 8364, 8364>>, <<126, 126, 126, 63, 63, 63>> >>
 CsvAlpha == <<97, 44, 9, 34, 10, 32, 59, 233, 45, 35>>
 CsvFields == SelectSeq(UpTo(CsvAlpha, 2), LAMBDA f : TRUE) \o << <<34, 97, 34>>, <<97, 34, 34, 98>>, <<97, 10, 98, 10>>, <<44, 44, 44>>, <<97, 13, 10, 98>>, <<39, 97, 39>> >>
-PropKeyAlpha == <<97, 32, 61, 58, 35, 33, 92, 233, 45>>
+PropKeyAlpha == <<97, 32, 61, 58, 35, 33, 92, 233, 45, 42, 63>>      \* (`*` and `?` are characters of a key, not wildcards)
 PropValAlpha == <<97, 32, 61, 58, 35, 33, 92, 10, 9, 233>>
 PropKeys == SelectSeq(UpTo(PropKeyAlpha, 2), LAMBDA k : k # <<>>)
 PropVals == UpTo(PropValAlpha, 2) \o << <<97, 32, 32, 98>>, <<92, 110>>, <<92, 117, 48, 48, 52, 49>>, <<32, 32, 97>>, <<97, 32, 32>> >>
@@ -44,6 +44,7 @@ CsvTables == [i \in DOMAIN CsvFields |-> [hdr |-> <<K1>>, rows |-> << <<CsvField
              \o [i \in DOMAIN CsvFields |-> [hdr |-> <<CsvFields[i], K2>>, rows |-> << <<A, A>> >>, obj |-> TRUE]]         \* the probe as a header
 PropCases == [i \in DOMAIN PropVals |-> << <<K1, PropVals[i]>> >>] \o [i \in DOMAIN PropKeys |-> << <<PropKeys[i], A>>, <<K2, A>> >>]
              \o [i \in DOMAIN PropVals |-> << <<K1, A>>, <<K2, PropVals[i]>> >>]
+             \o [i \in DOMAIN PropKeys |-> << <<K1, A>>, <<K2, A>>, <<PropKeys[i], <<98>>>> >>]                 \* the probe key AFTER other keys: it names one entry of its own
 R == <<114>>  NA == <<97>>  NB == <<98>>  NID == <<105, 100>>
 Leaf(n, t) == Elem(n, <<>>, <<>>, t)
 XmlTrees == [i \in DOMAIN XmlTexts |-> Leaf(R, XmlTexts[i])]
@@ -69,7 +70,10 @@ TomlValues == [i \in DOMAIN TomlStrs |-> JMap(<< <<K1, JStr(TomlStrs[i])>>, <<K2
                             <<<<122>>, JSeq(<<JMap(<< <<K1, JMap(<< <<K2, JStr(A)>> >>)>>, <<A, Num(3)>> >>)>>)>> >>),
                     JMap(<< <<K1, JSeq(<<JMap(<< <<<<121>>, JMap(<< <<<<122>>, Num(2)>>, <<<<119>>, Num(3)>> >>)>>, <<A, Num(1)>> >>)>>)>>,
                             <<K2, JMap(<< <<<<121>>, JMap(<< <<<<122>>, JStr(A)>>, <<<<119>>, JMap(<< <<A, Num(1)>>, <<<<98>>, Num(2)>> >>)>> >>)>> >>)>> >>),
-                    JMap(<< <<K1, Num(-17)>>, <<K2, Dec(FALSE, <<6, 0, 2>>, 21)>>, <<A, JSeq(<<JSeq(<<Num(1)>>), JSeq(<<JStr(A)>>)>>)>> >>) >>
+                    JMap(<< <<K1, Num(-17)>>, <<K2, Dec(FALSE, <<6, 0, 2>>, 21)>>, <<A, JSeq(<<JSeq(<<Num(1)>>), JSeq(<<JStr(A)>>)>>)>> >>),
+                    \* keys that hold `*` / `?` after keys they would match as patterns: they are characters
+                    JMap(<< <<K1, Num(1)>>, <<<<107, 42>>, Num(2)>>, <<K2, Num(3)>>, <<<<107, 63>>, Num(4)>> >>),
+                    JMap(<< <<K1, JMap(<< <<A, Num(1)>>, <<<<42>>, Num(2)>> >>)>>, <<<<42>>, JMap(<< <<A, Num(3)>> >>)>> >>) >>
 
 \* ---- laws of the text machines (checked per lane so that TLC works in parallel)
 \* csv2 / props2 / xml2 / xml3 / lua2: the same case tables under other format preferences (separator `;`, separator `:`,
@@ -111,7 +115,8 @@ Rejects == /\ ~B64Read(<<97, 98, 99>>).ok /\ ~B64Read(<<97, 61, 98, 99>>).ok /\ 
 Probe(g, i) == LET f == Base(g) IN
   CASE f \in {"b64", "uri"} -> B64Cases[i].s
     [] f \in {"csv", "tsv"} -> CsvFields[((i - 1) % Len(CsvFields)) + 1]
-    [] f = "props" -> IF i <= Len(PropVals) THEN PropVals[i] ELSE IF i <= Len(PropVals) + Len(PropKeys) THEN PropKeys[i - Len(PropVals)] ELSE PropVals[i - Len(PropVals) - Len(PropKeys)]
+    [] f = "props" -> IF i <= Len(PropVals) THEN PropVals[i] ELSE IF i <= Len(PropVals) + Len(PropKeys) THEN PropKeys[i - Len(PropVals)]
+                      ELSE IF i <= 2 * Len(PropVals) + Len(PropKeys) THEN PropVals[i - Len(PropVals) - Len(PropKeys)] ELSE PropKeys[i - 2 * Len(PropVals) - Len(PropKeys)]
     [] f = "xml" -> XmlTexts[((i - 1) % Len(XmlTexts)) + 1]
     [] f = "lua" -> IF i <= 2 * Len(LuaStrs) THEN LuaStrs[((i - 1) % Len(LuaStrs)) + 1] ELSE <<>>
     [] f = "toml" -> IF i <= 2 * Len(TomlStrs) THEN TomlStrs[((i - 1) % Len(TomlStrs)) + 1] ELSE <<>>
